@@ -29,7 +29,7 @@ ASSUMPTIONS = [
     "truth: truncated factorisation of the generating SCM, exact rational arithmetic",
 ]
 BUDGET = {
-    "quick": dict(examples=90, shards=16, seconds=200),
+    "quick": dict(examples=350, shards=16, seconds=200),
     "thorough": dict(examples=1500, shards=16, seconds=2400),
 }
 ESSENTIAL_LABELS = {t: ["line_4", "line_7", "line_3", "line_2", "answered", "card3"] for t in ("quick", "thorough")}
